@@ -830,10 +830,17 @@ def compile_job(job, wd):
     t0 = time.time()
     job.pruned = []
     for attempt in range(6):
-        cmd = [CXX] + IR_FLAGS + ["-Rpass=inline", "-I", wd] + include_flags(job.flags) + [src, "-o", ll]
+        cmd = [CXX] + IR_FLAGS + ["-I", wd] + include_flags(job.flags) + [src, "-o", ll]
         p = subprocess.run(cmd, capture_output=True, text=True)
         if p.returncode == 0:
-            job.inlined = _inlined_rlbox_functions(p.stderr)
+            # a second, throw-away compilation only to collect the inliner's remarks for the evidence file (-Rpass makes clang
+            # attach debug locations to the IR, so its output is never the IR that is executed)
+            try:
+                pr = subprocess.run([CXX] + IR_FLAGS + ["-Rpass=inline", "-I", wd] + include_flags(job.flags) + [src, "-o", os.devnull],
+                                    capture_output=True, text=True, timeout=300)
+                job.inlined = _inlined_rlbox_functions(pr.stderr) if pr.returncode == 0 else []
+            except Exception:
+                job.inlined = []
             break
         removed = _prune_failing_kernels(job, wd, p.stderr, src) if attempt < 5 else []
         if not removed:
